@@ -115,4 +115,207 @@ theorem u_exact (num den : Nat) (hn : 0 < num) (hd : 0 < den) (b : Nat) (h : rou
     _ = num * (pR (1 - g) * (P * 2)) := by rw [hid]
     _ = pR (1 - g) * 2 * (num * P) := by ac_rfl
 
+
+/-! ## integers below `2^53` are exactly representable -/
+
+theorem exp_lt_of_lt (N k : Nat) (hN : 0 < N) (h : N < 2 ^ k) : floorLog2Rat N 1 < (k : Int) := by
+  obtain ⟨h1, _⟩ := floorLog2Rat_spec N 1 hN (by omega)
+  apply Classical.byContradiction
+  intro hge
+  have := (le2_ofNat k N 1).1 (le2_mono (by omega) h1)
+  omega
+
+theorem exp_ge_of_le (N k : Nat) (hN : 0 < N) (h : 2 ^ k ≤ N) : (k : Int) ≤ floorLog2Rat N 1 := by
+  obtain ⟨_, h2⟩ := floorLog2Rat_spec N 1 hN (by omega)
+  apply Classical.byContradiction
+  intro hlt
+  have := (lt2_ofNat k N 1).1 (lt2_mono (by omega) h2)
+  omega
+
+theorem pR_of_pos (s : Int) (h : 0 ≤ s) : pR s = 1 := by
+  unfold pR
+  have : (-s).toNat = 0 := by omega
+  rw [this]
+
+theorem nat_exact (N : Nat) (hN : 0 < N) (h53 : N < 2 ^ 53) :
+    ∃ b, roundRat N 1 = some b ∧ u b = N * 2 ^ 1074 ∧ b < 2047 * 2 ^ 52 := by
+  have he := exp_lt_of_lt N 53 hN h53
+  obtain ⟨hc, hcase⟩ := roundRat_closed N 1 hN (by omega)
+  have hgle : ulpOf (floorLog2Rat N 1) ≤ 0 := by unfold ulpOf; split <;> omega
+  have hgge := ulpOf_ge (floorLog2Rat N 1)
+  -- no overflow
+  have hlim : ¬ ((ulpOf (floorLog2Rat N 1) + 1074).toNat * 2 ^ 52 +
+      roundQ (N * pL (1 - ulpOf (floorLog2Rat N 1)) / (1 * pR (1 - ulpOf (floorLog2Rat N 1))))
+        (N * pL (1 - ulpOf (floorLog2Rat N 1)) % (1 * pR (1 - ulpOf (floorLog2Rat N 1))) != 0) ≥ 2047 * 2 ^ 52) := by
+    have : (ulpOf (floorLog2Rat N 1) + 1074).toNat ≤ 1074 := by omega
+    have := Nat.mul_le_mul_right (2 ^ 52) this
+    rcases hcase with h | h <;> omega
+  rw [if_neg hlim] at hc
+  refine ⟨_, hc, ?_, by omega⟩
+  have := u_exact N 1 hN (by omega) _ hc (by
+    intro g
+    have hg : g ≤ 0 := hgle
+    have hpr : pR (1 - g) = 1 := pR_of_pos _ (by omega)
+    rw [hpr, Nat.mul_one, Nat.mod_one, Nat.div_one]
+    refine ⟨rfl, ?_⟩
+    unfold pL
+    have : (1 - g).toNat = ((1 - g).toNat - 1) + 1 := by omega
+    rw [this, Nat.pow_succ, ← Nat.mul_assoc]
+    exact Nat.mul_mod_left _ _)
+  rw [Nat.mul_one] at this
+  exact this
+
+/-! ## the hardware operations in terms of values -/
+
+theorem roundScaled_eq (n d : Nat) (e : Int) (hn : n ≠ 0) :
+    roundScaled n d e = (roundRat (n * pL e) (d * pR e)).getD infBits := by
+  unfold roundScaled
+  rw [if_neg hn]
+  cases e with
+  | ofNat k =>
+    have h1 : pL (Int.ofNat k) = 2 ^ k := pL_ofNat k
+    have h2 : pR (Int.ofNat k) = 1 := pR_ofNat k
+    simp only [h1, h2, Nat.mul_one]
+  | negSucc k =>
+    have h1 : pL (Int.negSucc k) = 1 := by
+      rw [show Int.negSucc k = -((k + 1 : Nat) : Int) by omega, pL_neg]
+    have h2 : pR (Int.negSucc k) = 2 ^ (k + 1) := by
+      rw [show Int.negSucc k = -((k + 1 : Nat) : Int) by omega, pR_neg]
+    simp only [h1, h2, Nat.mul_one]
+
+theorem u_pos_iff (b : Nat) : 0 < u b ↔ 0 < (decodeF64 b).1 := by
+  unfold u
+  constructor
+  · intro h
+    rcases Nat.eq_zero_or_pos (decodeF64 b).1 with h0 | h0
+    · rw [h0, Nat.zero_mul] at h; omega
+    · exact h0
+  · intro h; exact Nat.mul_pos h (Nat.pow_pos (by omega))
+
+/-- `a * b` is the correctly rounded exact product -/
+theorem fmul_eq (a b : Nat) (ha : 0 < u a) (hb : 0 < u b) :
+    fmul a b = (roundRat (u a * u b) (2 ^ 1074 * 2 ^ 1074)).getD infBits := by
+  have hsa := (u_pos_iff a).1 ha
+  have hsb := (u_pos_iff b).1 hb
+  have hea := decode_exp_ge a
+  have heb := decode_exp_ge b
+  unfold fmul u
+  generalize decodeF64 a = da at *
+  generalize decodeF64 b = db at *
+  obtain ⟨sa, ea⟩ := da
+  obtain ⟨sb, eb⟩ := db
+  simp only at *
+  rw [roundScaled_eq _ _ _ (Nat.ne_of_gt (Nat.mul_pos hsa hsb))]
+  apply congrArg (fun r => Option.getD r infBits)
+  apply roundRat_congr
+  · exact Nat.mul_pos (Nat.mul_pos hsa hsb) (pL_pos _)
+  · exact Nat.mul_pos (by omega) (pR_pos _)
+  · exact Nat.mul_pos (Nat.mul_pos hsa (Nat.pow_pos (by omega))) (Nat.mul_pos hsb (Nat.pow_pos (by omega)))
+  · exact Nat.mul_pos (Nat.pow_pos (by omega)) (Nat.pow_pos (by omega))
+  · unfold pL pR
+    have key : 2 ^ (ea + eb).toNat * (2 ^ 1074 * 2 ^ 1074)
+        = 2 ^ (ea + 1074).toNat * 2 ^ (eb + 1074).toNat * 2 ^ (-(ea + eb)).toNat := by
+      rw [← Nat.pow_add, ← Nat.pow_add, ← Nat.pow_add, ← Nat.pow_add]
+      congr 1; omega
+    calc sa * sb * 2 ^ (ea + eb).toNat * (2 ^ 1074 * 2 ^ 1074)
+        = sa * sb * (2 ^ (ea + eb).toNat * (2 ^ 1074 * 2 ^ 1074)) := by rw [Nat.mul_assoc]
+      _ = sa * sb * (2 ^ (ea + 1074).toNat * 2 ^ (eb + 1074).toNat * 2 ^ (-(ea + eb)).toNat) := by rw [key]
+      _ = sa * 2 ^ (ea + 1074).toNat * (sb * 2 ^ (eb + 1074).toNat) * (1 * 2 ^ (-(ea + eb)).toNat) := by
+        rw [Nat.one_mul]; ac_rfl
+
+/-- `a / b` is the correctly rounded exact quotient -/
+theorem fdiv_eq (a b : Nat) (ha : 0 < u a) (hb : 0 < u b) :
+    fdiv a b = (roundRat (u a) (u b)).getD infBits := by
+  have hsa := (u_pos_iff a).1 ha
+  have hsb := (u_pos_iff b).1 hb
+  have hea := decode_exp_ge a
+  have heb := decode_exp_ge b
+  unfold fdiv u
+  generalize decodeF64 a = da at *
+  generalize decodeF64 b = db at *
+  obtain ⟨sa, ea⟩ := da
+  obtain ⟨sb, eb⟩ := db
+  simp only at *
+  rw [roundScaled_eq _ _ _ (Nat.ne_of_gt hsa)]
+  apply congrArg (fun r => Option.getD r infBits)
+  apply roundRat_congr
+  · exact Nat.mul_pos hsa (pL_pos _)
+  · exact Nat.mul_pos hsb (pR_pos _)
+  · exact Nat.mul_pos hsa (Nat.pow_pos (by omega))
+  · exact Nat.mul_pos hsb (Nat.pow_pos (by omega))
+  · unfold pL pR
+    have key : 2 ^ (ea - eb).toNat * 2 ^ (eb + 1074).toNat = 2 ^ (ea + 1074).toNat * 2 ^ (-(ea - eb)).toNat := by
+      rw [← Nat.pow_add, ← Nat.pow_add]
+      congr 1; omega
+    calc sa * 2 ^ (ea - eb).toNat * (sb * 2 ^ (eb + 1074).toNat)
+        = sa * sb * (2 ^ (ea - eb).toNat * 2 ^ (eb + 1074).toNat) := by ac_rfl
+      _ = sa * sb * (2 ^ (ea + 1074).toNat * 2 ^ (-(ea - eb)).toNat) := by rw [key]
+      _ = sa * 2 ^ (ea + 1074).toNat * (sb * 2 ^ (-(ea - eb)).toNat) := by ac_rfl
+
+/-- `a > b` compares the values -/
+theorem fgt_eq (a b : Nat) : fgt a b = decide (u a > u b) := by
+  have hea := decode_exp_ge a
+  have heb := decode_exp_ge b
+  unfold fgt u
+  generalize decodeF64 a = da at *
+  generalize decodeF64 b = db at *
+  obtain ⟨sa, ea⟩ := da
+  obtain ⟨sb, eb⟩ := db
+  simp only at *
+  cases hd : ea - eb with
+  | ofNat k =>
+    have hk : ea - eb = (k : Int) := hd
+    have e1 : (ea + 1074).toNat = (eb + 1074).toNat + k := by omega
+    rw [e1, Nat.pow_add 2 (eb + 1074).toNat k]
+    have hp : 0 < 2 ^ (eb + 1074).toNat := Nat.pow_pos (by omega)
+    have : sa * (2 ^ (eb + 1074).toNat * 2 ^ k) = sa * 2 ^ k * 2 ^ (eb + 1074).toNat := by ac_rfl
+    rw [this]
+    apply decide_eq_decide.2
+    exact (mul_lt_mul_right_iff hp).symm
+  | negSucc k =>
+    have hk : ea - eb = -((k + 1 : Nat) : Int) := by rw [hd]; omega
+    have e1 : (eb + 1074).toNat = (ea + 1074).toNat + (k + 1) := by omega
+    rw [e1, Nat.pow_add 2 (ea + 1074).toNat (k + 1)]
+    have hp : 0 < 2 ^ (ea + 1074).toNat := Nat.pow_pos (by omega)
+    have : sb * (2 ^ (ea + 1074).toNat * 2 ^ (k + 1)) = sb * 2 ^ (k + 1) * 2 ^ (ea + 1074).toNat := by ac_rfl
+    rw [this]
+    apply decide_eq_decide.2
+    exact (mul_lt_mul_right_iff hp).symm
+
+
+/-! ## finiteness and lower bounds of rounded results -/
+
+theorem roundRat_finite (n d : Nat) (hn : 0 < n) (hd : 0 < d) (h : lt2 1023 n d) : ∃ b, roundRat n d = some b := by
+  obtain ⟨hc, hcase⟩ := roundRat_closed n d hn hd
+  obtain ⟨h1, _⟩ := floorLog2Rat_spec n d hn hd
+  have he : floorLog2Rat n d < 1023 := by
+    apply Classical.byContradiction
+    intro hge
+    exact (not_le2_iff _ _ _).2 h (le2_mono (by omega) h1)
+  have hg : ulpOf (floorLog2Rat n d) ≤ 970 := by unfold ulpOf; split <;> omega
+  have hgge := ulpOf_ge (floorLog2Rat n d)
+  rw [if_neg] at hc
+  · exact ⟨_, hc⟩
+  · have : (ulpOf (floorLog2Rat n d) + 1074).toNat ≤ 2044 := by omega
+    have := Nat.mul_le_mul_right (2 ^ 52) this
+    rcases hcase with h | h <;> omega
+
+theorem u_ge_of_exp (n d : Nat) (hn : 0 < n) (hd : 0 < d) (b : Nat) (h : roundRat n d = some b)
+    (he : 53 ≤ floorLog2Rat n d) : 2 ^ 53 * 2 ^ 1074 ≤ u b := by
+  obtain ⟨hu, _⟩ := u_roundRat n d hn hd b h
+  obtain ⟨_, hcase⟩ := roundRat_closed n d hn hd
+  have hg : 1 ≤ ulpOf (floorLog2Rat n d) := by unfold ulpOf; split <;> omega
+  rw [hu]
+  rcases hcase with h | h
+  · omega
+  · obtain ⟨_, hq, _⟩ := h
+    have ht : (ulpOf (floorLog2Rat n d) + 1074).toNat = 1075 + ((ulpOf (floorLog2Rat n d) + 1074).toNat - 1075) := by
+      omega
+    rw [ht, Nat.pow_add, show (2 : Nat) ^ 1075 = 2 ^ 1074 * 2 from Nat.pow_succ 2 1074]
+    have hR : 1 ≤ (2 : Nat) ^ ((ulpOf (floorLog2Rat n d) + 1074).toNat - 1075) := Nat.pow_pos (by omega)
+    generalize (2 : Nat) ^ ((ulpOf (floorLog2Rat n d) + 1074).toNat - 1075) = R at *
+    generalize (2 : Nat) ^ 1074 = P
+    calc 2 ^ 53 * P = 2 ^ 52 * (P * 2 * 1) := by omega
+      _ ≤ _ := Nat.mul_le_mul hq (Nat.mul_le_mul_left _ hR)
+
 end Sonic.Proofs.Rne
